@@ -1253,7 +1253,11 @@ impl Value {
         let new_fields = fields
             .iter()
             .map(|field| {
-                let value = match items.remove(&field.name) {
+                // The writer can know this field under one of the reader's aliases
+                let written = items
+                    .remove(&field.name)
+                    .or_else(|| field.aliases.iter().find_map(|alias| items.remove(alias)));
+                let value = match written {
                     Some(value) => value,
                     None => match field.default {
                         Some(ref value) => match field.schema {
